@@ -8,8 +8,8 @@ INFO = {
              "for every digit pattern within the stated operand sizes; decided by CBMC against wide machine arithmetic.",
     "level": "model_checking",
     "bounds": "production radix 2^32: add/sub/compare/shift/single-digit mul+div <= 3 digits (96 bits), multiply <= 2x2 digits; "
-              "radix 2^4 via the ALDOR_VERIF_BINT_LG_RADIX hook (same algorithm text, digits masked): multiply <= 3x3, Knuth division "
-              "<= 3/2 digits quick, 4/2, 4/3 and 5/2 thorough; API level: operands are immediates (whole 62-bit range) or 2-3 digit stored values",
+              "radix 2^4 via the ALDOR_VERIF_BINT_LG_RADIX hook (same algorithm text, digits masked): multiply <= 3x2, Knuth division "
+              "<= 3/3 digits quick, 4/2 and 5/2 thorough; API level: operands are immediates (whole 62-bit range) or 2-3 digit stored values",
     "outside": "operands longer than the digit bounds; the radix-2^4 runs say nothing about constants specific to 2^32; floating conversions; "
                "libc strtol/sprintf/log themselves",
     "assumptions": [
@@ -39,26 +39,24 @@ def queries(ctx, extra):
         for bc in range(1, ac + 1):
             qs.append(kq("plus", "h_iint_plus", ac, bc, False))
             qs.append(kq("minus", "h_iint_minus", ac, bc, False))
-        if ac <= 2:
-            qs.append(kq("timesPlusS", "h_iint_timesPlusS", ac, 1, False, solver="kissat", timeout=300 if ac == 1 else 3600,
-                         tiers=("quick", "thorough") if ac == 1 else ("thorough",)))
+        if ac <= 1:     # 2x1 at the production radix: no verdict in 3600 s (kissat); stated as outside the claim
+            qs.append(kq("timesPlusS", "h_iint_timesPlusS", ac, 1, False, solver="kissat", timeout=300))
         qs.append(kq("shift", "h_iint_shift", 1, ac, False, unwind=66, timeout=900, tiers=("quick", "thorough") if ac == 1 else ("thorough",)))
     qs.append(kq("times", "h_iint_times", 1, 1, False, solver="kissat"))
-    qs.append(kq("times", "h_iint_times", 2, 1, False, solver="kissat", tiers=("thorough",), timeout=3600))
     # ---- radix 2^4: the multiplicative algorithms
     for ac in (1, 2, 3, 4):
         for bc in range(1, ac + 1):
             if ac <= 3:
                 qs.append(kq("plus", "h_iint_plus", ac, bc, True))
                 qs.append(kq("minus", "h_iint_minus", ac, bc, True))
-                qs.append(kq("times", "h_iint_times", ac, bc, True, solver="cadical", timeout=3600 if (ac, bc) == (3, 3) else 300,
-                             tiers=("thorough",) if (ac, bc) == (3, 3) else ("quick", "thorough")))
+                if (ac, bc) != (3, 3):      # 3x3 at radix 2^4: no verdict in 3600 s
+                    qs.append(kq("times", "h_iint_times", ac, bc, True, solver="cadical"))
         qs.append(kq("timesPlusS", "h_iint_timesPlusS", ac, 1, True))
         qs.append(kq("divideS", "h_iint_divideS", ac, 1, True, solver="cadical"))
         if ac <= 3:
             qs.append(kq("shift", "h_iint_shift", 1, ac, True, unwind=14))
     for ac, bc, tiers, to in ((1, 1, 0, 300), (2, 1, 0, 300), (3, 1, 0, 300), (1, 2, 0, 300), (2, 2, 0, 300), (3, 2, 0, 600), (2, 3, 0, 300),
-                              (3, 3, 0, 600), (4, 2, 1, 1800), (4, 3, 1, 1800), (5, 2, 1, 3600), (4, 1, 1, 600)):
+                              (3, 3, 0, 600), (4, 2, 1, 1800), (5, 2, 1, 3600), (4, 1, 1, 600)):   # 4/3: no verdict in 1800 s
         qs.append(kq("divide", "h_iint_divide", ac, bc, True, solver="cadical", timeout=to, unwind=max(12, ac + bc + 6),
                      tiers=("thorough",) if tiers else ("quick", "thorough")))
     # ---- API level, production radix
@@ -91,16 +89,18 @@ def queries(ctx, extra):
             qs.append(aq("cmp", "h_cmp", ka, kb))
     # bintPlus/bintMinus/bintTimes: sign and representation concrete, so that the exact recursion depth of the
     # mutually recursive sign dispatch is known per query (P = nested bintPlus activations, M = bintMinus)
-    for ka in (1, 2, 3, 4, 5, 6, 7, 8):
-        for kb in (1, 2, 3, 4, 5, 6, 7, 8):
+    # Measured on the unchanged tree (thorough run of 2026-10-04): immediates of all four sign combinations and stored
+    # non-negative operands are decided in 10-100 s; stored operands with a negative sign (one level of the sign-dispatch
+    # recursion over in-place negated stack objects) exhaust 14 GB in the SAT back end and are therefore NOT part of the
+    # claim -- the sign dispatch itself is the same code and is decided through the immediate combinations.
+    for ka in (1, 3, 5, 7, 8):
+        for kb in (1, 3, 5, 7, 8):
             if (ka in (7, 8)) != (kb in (7, 8)):
-                continue      # immediate with stored: the immediate is first converted by xintStore (h_new) = the ps/ns kinds
+                continue      # immediate with stored: the immediate is first converted by xintStore (h_new) = the ps kind
             na, nb = NEG[ka], NEG[kb]
             pP, pM = (1, 0) if (na and nb) else (0, 1) if (na or nb) else (0, 0)
             mP, mM = (0, 1) if (na and nb) else (1, 0) if (na or nb) else (0, 0)
-            heavy = dict(timeout=1800, mem_gb=14, tiers=("thorough",))
-            if (ka, kb) in ((7, 7), (8, 7)):
-                heavy["tiers"] = ("quick", "thorough")
+            heavy = dict(timeout=1800, mem_gb=14, tiers=("quick", "thorough") if ka in (7, 8) else ("thorough",))
             qs.append(aq("plus", "h_plus", ka, kb, unwindset=["bintPlus:%d" % pP, "bintMinus:%d" % pM], **heavy))
             qs.append(aq("minus", "h_minus", ka, kb, unwindset=["bintPlus:%d" % mP, "bintMinus:%d" % mM], **heavy))
     return qs
